@@ -321,6 +321,7 @@ func (c07Prop) Execute(p *Plan, run *Run) any {
 			}
 		}
 		for _, s := range sites {
+			tick()
 			if s.Off < c.SyncOff || s.Off >= len(data) {
 				continue
 			}
@@ -360,6 +361,7 @@ func (c07Prop) Execute(p *Plan, run *Run) any {
 			}
 		}
 		for _, s := range sites {
+			tick()
 			j := blockOfOff(s.Off)
 			if j < 0 {
 				continue
@@ -391,6 +393,7 @@ func (c07Prop) Execute(p *Plan, run *Run) any {
 			}
 		}
 		for _, s := range sites {
+			tick()
 			j := blockOfOff(s.Off)
 			if j < 0 {
 				continue
@@ -428,6 +431,7 @@ func (c07Prop) Execute(p *Plan, run *Run) any {
 			}
 		}
 		for _, s := range sites {
+			tick()
 			if s.Off > 3 {
 				continue
 			}
@@ -514,6 +518,7 @@ func (c07Prop) Execute(p *Plan, run *Run) any {
 		}
 		cbErr := c07CallbackErr(pl.CbErr)
 		for _, i := range recs {
+			tick()
 			if i >= len(D) {
 				continue
 			}
